@@ -29,6 +29,17 @@ Core Lean only.
 namespace PebblesVerif.Model.Introspect
 open PebblesVerif
 
+/-- field names each resolver has a `case` arm for (the literals of the `match`es below; tied to the source by `C16_gen_recognised`,
+    to the `match`es by `C16_default_arm_type` / `C16_no_default_arm`) -/
+def armsRoot : List String := ["__type", "__schema"]
+def armsSchema : List String := ["types", "queryType", "mutationType", "subscriptionType", "directives"]
+def armsTypeWrapper : List String := ["kind", "ofType"]
+def armsTypeNamed : List String := ["kind", "name", "fields", "description", "interfaces", "possibleTypes", "enumValues", "inputFields"]
+def armsField : List String := ["name", "description", "args", "type", "isDeprecated", "deprecationReason"]
+def armsDirective : List String := ["name", "description", "locations", "args"]
+def armsInputValue : List String := ["name", "description", "type", "defaultValue"]
+def armsEnumValue : List String := ["name", "description", "isDeprecated", "deprecationReason"]
+
 /-- `hasDeprecatedDirective`: `(true, &reason)` with `reason = ""` when the argument is absent,
     `(false, nil)` otherwise -/
 def hasDeprecated (ds : List DirUse) : Bool × J :=
